@@ -139,7 +139,8 @@ def queries(tier):
             for sym in ("i", "n"):
                 if sym in names:
                     qs.append(("solve", "solve", e, t, sym))
-    return qs
+    stride = int(os.environ.get("PV_C17_STRIDE", "1"))     # development aid
+    return qs[::stride] if stride > 1 else qs
 
 
 # ------------------------------------------------- driving the implementation
@@ -569,6 +570,9 @@ def run(tier):
         "solve_independent": sum(1 for r in sup if r["q"] == "solve"
                                  and r["answer"] == "independent"),
         "expand_changed": sum(1 for r in sup if r["q"] == "expand" and r["x"] != r["e1"])}
+    if os.environ.get("PV_C17_STRIDE", "1") != "1":
+        cov["exhaustive"] = False
+        cov["restricted_to"] = "every %s-th query" % os.environ["PV_C17_STRIDE"]
     cov["evaluations"] = len(sup)
     cov["distinct_nontrivial"] = sum(
         1 for r in sup if (r["q"] == "cmp" and (r["eq"] or r["ne"]))
